@@ -31,3 +31,23 @@ Proof. repeat split; vm_compute; reflexivity. Qed.
 Theorem datetime_is_not_a_string :
   forall r, decode r (TStruct (str "S") [(str "d", TStr)]) dt_tree = Err EDe.
 Proof. intro r. destruct r; vm_compute; reflexivity. Qed.
+
+(* the former witness of the repaired C06-root-datetime-printed-as-table (crates/toml/src/ser.rs serialize_struct dropped
+   the struct name): a Datetime at the ROOT.  The single-value serializer writes the date-time itself, which every
+   single-value route reads back; the document serializers refuse it as a non-table, toml's now like toml_edit's;
+   Value::try_from yields the date-time.  (Table::try_from still answers the private-key table: value.rs
+   TableSerializer::serialize_struct, known class private-datetime-key.) *)
+Definition rdt_ty : ty := TDatetime KDatetime.
+Definition rdt_val : sval := SDt dt_d.
+Theorem root_datetime :
+  has_type rdt_val rdt_ty
+  /\ ser_value_text rdt_ty rdt_val = Ok (VDatetime dt_d) /\ ser_value rdt_ty rdt_val = Ok (VDatetime dt_d)
+  /\ tv_ser rdt_ty rdt_val = Ok (VDatetime dt_d)
+  /\ ser_toml_root rdt_ty rdt_val = Err (EUnsupportedType None) /\ ser_edit_root rdt_ty rdt_val = Err (EUnsupportedType None)
+  /\ (forall r, r = R_tvd \/ r = R_evd \/ r = R_tvdval -> decode r rdt_ty (VDatetime dt_d) = Ok rdt_val)
+  /\ tv_ser_table rdt_ty rdt_val = Ok (VTab [(DT_FIELD, VStr (display_datetime dt_d))]).
+Proof.
+  repeat split; try (vm_compute; reflexivity).
+  intros r [-> | [-> | ->]]; vm_compute; reflexivity.
+Qed.
+
